@@ -97,7 +97,12 @@ func (t *RecordingTransport) RoundTrip(req *http.Request) (*http.Response, error
 	}
 	ex := t.w.Log.Begin(&Exchange{Link: t.link, Method: req.Method, Scheme: req.URL.Scheme, Host: host, Target: req.URL.RequestURI(), Path: req.URL.Path,
 		RawQuery: req.URL.RawQuery, ReqHdr: cloneHeader(req.Header), ReqBody: body})
-	defer t.w.Log.End(ex)
+	defer func() {
+		t.w.Log.End(ex)
+		if t.link == L2 && t.w.OnBackchannel != nil {
+			t.w.OnBackchannel(ex)
+		}
+	}()
 	if t.link == L3 && (strings.HasSuffix(req.URL.Path, "/members") || strings.HasSuffix(req.URL.Path, "/sa-token")) {
 		ex.Background = true
 	}
